@@ -351,7 +351,9 @@ impl HeapBuffer {
 
     unsafe fn allocation(&self) -> *mut u8 {
         unsafe {
-            if self.len.is_heap() {
+            // The layout is chosen by the capacity (see `allocate_ptr`), so the length slot is
+            // part of the allocation even while the length itself still fits in `self.len`.
+            if is_len_heap_layout(self.header().capacity) {
                 cold_path();
                 self.ptr.as_ptr().cast::<u8>().sub(Self::header_offset()).sub(size_of::<usize>())
             } else {
